@@ -78,8 +78,10 @@ class Frame:
 
 
 class LoopSpec:
-    def __init__(self, invariants, modifies=(), decreases=None, index=None, var_types=None, entry=None):
+    def __init__(self, invariants, modifies=(), decreases=None, index=None, var_types=None, entry=None, exit=()):
         self.entry = dict(entry or {})           # ghost names bound to expressions evaluated at loop entry
+        self.exit = list(exit)                   # consequences of invariants + negated condition: proved at the exit, then assumed
+                                                 # (an intermediate step for the solver, never an assumption)
         self.invariants = list(invariants)
         self.modifies = list(modifies)    # extra heap locations: "obj.field" strings (python exprs)
         self.decreases = decreases
@@ -963,6 +965,15 @@ class Ex:
         finally:
             self.spec_mode -= 1
         if not self.branch(cond()):
+            if spec.exit:
+                self.spec_mode += 1
+                try:
+                    for i, fact in enumerate(spec.exit):
+                        g = self.truth(self.eval_text(fact))
+                        self.oblige("%s.exit%d" % (tag, i), g, kind="loop-exit")
+                        self.assume(g)
+                finally:
+                    self.spec_mode -= 1
             self.exec_block(st.orelse)
             return
         bind()
@@ -982,6 +993,10 @@ class Ex:
             if spec.decreases:
                 m1 = self.eval_text(spec.decreases)
                 self.oblige("%s.decreases" % tag, z3.And(measure0.t >= 0, m1.t < measure0.t), kind="decreases")
+            if getattr(self.contract, "cover_loop_paths", False):
+                # opt-in per contract: every path through the loop body must be satisfiable (a contradictory model of a callee
+                # or of a data structure would otherwise discharge the obligations of that path vacuously)
+                self.oblige("vacuity probe: this path through the body of %s is satisfiable" % tag, False, kind="probe")
         finally:
             self.spec_mode -= 1
         raise PathEnd()
@@ -1008,6 +1023,8 @@ class Ex:
                     done.add(id(v))
                     if ty is not None and v.kind == "list":
                         v.val = VSeq("list", ty[1], z3.Const(fresh_name(nm), sort_of(ty)))
+                    elif ty is not None and v.kind == "dict" and ty[0] == "dict":
+                        v.val = fresh(ty, nm).val
                     else:
                         self.havoc_box(v, nm)
                 if nm not in _assigned_names(st.body):
@@ -1123,6 +1140,8 @@ class Ex:
             seq, cur = live()
             x = self.world.speclib.seq_index(self, seq, cur, checked=False)
             box.val = (seq, VInt(cur.t + 1))
+            if getattr(box, "take_fact", None) is not None:
+                self.assume(box.take_fact(cur.t, x))
             if enum_start is not None:
                 x = VTuple([VInt(z3.simplify(enum_start.t + cur.t)), x])
             self.assign(st.target, x)
@@ -1149,6 +1168,8 @@ class Ex:
         if spec.index:
             fr.vars[spec.index] = box.val[1]
         fr.vars["__seq%d" % k] = box.val[0]
+        if getattr(box, "pos_fn", None) is not None:
+            fr.vars["__pos%d" % k] = box.pos_fn        # iteration over a dict: ghost position of a key in the iteration order
 
         def cond():
             if spec.index:
@@ -1157,9 +1178,12 @@ class Ex:
 
         old_havoc = self.havoc_loop
 
+        shared = box is it           # an iterator object the program itself holds: inner loops may advance it too
+
         def havoc(st_, spec_):
             old_havoc(st_, spec_)
-            self.havoc_box(box, "__it%d" % k)
+            if st_ is st or shared:
+                self.havoc_box(box, "__it%d" % k)
             if spec.index:
                 fr.vars[spec.index] = box.val[1]
         self.havoc_loop = havoc
@@ -1270,9 +1294,40 @@ class Ex:
                 else:
                     fr.vars[gen.target.id] = saved
             return self.world.speclib.make_list(self, out)
+        if isinstance(seq, VRef) and seq.cls in getattr(self.world, "abstract_iter", {}):
+            seq = self.world.speclib.seqval(self.call(self.world.spec_env[self.world.abstract_iter[seq.cls]], [seq], {}))
         if not isinstance(seq, VSeq):
             raise Unsupported("list comprehension over %r" % (seq,))
         fr = self.frame()
+        # a contract may name the comprehension: comprehensions = {k: (spec_map, spec_elt)} says that the k-th comprehension of
+        # the function is spec_map(seq), where spec_map is the sidecar's recursive  [spec_elt(x) for x in seq].  The element
+        # expression of the real code is then checked against spec_elt on an arbitrary element (an obligation); mapping two
+        # pointwise equal functions over the same sequence gives the same list.
+        c_ = self.contract if (self.contract is not None and len(self.frames) == 1) else self.world.contract_for_func(fr.func)
+        named = getattr(c_, "comprehensions", None)
+        if named:
+            comps_ = [n for n in _walk_shallow(fr.func.node) if isinstance(n, ast.ListComp)]
+            comps_.sort(key=lambda n: (n.lineno, n.col_offset))
+            k_ = comps_.index(e) if e in comps_ else -1
+            if k_ in named:
+                map_name, elt_name = named[k_]
+                lam = ast.Lambda(args=ast.arguments(posonlyargs=[], args=[ast.arg(arg=gen.target.id)], kwonlyargs=[],
+                                                    kw_defaults=[], defaults=[]), body=e.elt)
+                ast.fix_missing_locations(lam)
+                elt_fn = VFunc("user", "<comprehension element>", node=lam, closure=fr, cls=fr.func.cls, module=fr.func.module)
+                x = wrap(seq.ety, z3.Const(fresh_name("any_elem"), sort_of(seq.ety)))
+                self.spec_mode += 1
+                try:
+                    real_v = self.call_pure_lambda(elt_fn, [x])
+                    spec_v = self.call(self.world.spec_env[elt_name], [x], {})
+                    self.oblige("comprehension %d: its element expression is %s(x) for every x" % (k_, elt_name),
+                                self.eq(real_v, spec_v), kind="comp-elt")
+                    r = self.world.speclib.seqval(self.call(self.world.spec_env[map_name], [seq], {}))
+                finally:
+                    self.spec_mode -= 1
+                self.define(z3.Length(r.t) == seq.length(), key=("comp-len", r.t.get_id()))
+                self._keep.append(r.t)
+                return VBox("list", r)
         key = ("comp", id(e))
         vf = self.world.comp_funcs.get(key)
         if vf is None:
